@@ -1,4 +1,6 @@
 """C07 generator: flow throttling rules and hotspot QPS throttling rules under a virtual clock (ns)."""
+import importlib.util as _ilu, os as _os
+_ms = _ilu.spec_from_file_location("worldmix", _os.path.join(_os.path.dirname(__file__), "worldmix.py")); MIX = _ilu.module_from_spec(_ms); _ms.loader.exec_module(MIX)
 LEVEL = "proof"
 MODEL = "lean/Sentinel/World.lean (throttleCheck, FlowCtrl.step, flowSlot) and Sentinel/Hotspot.lean (throttleCost, HsCtrl.checkThrottle) + World.hsSlot"
 RULE = ("flow: one direct/throttling rule (sometimes two, or together with a reject rule), rate from {0,1,2,5,10,100,1000,5/2} per {100,500,1000,2000,10000} ms, "
@@ -70,6 +72,12 @@ def hs_case(rng):
     return ops
 
 
-def gen(rng, tier):
+def gen_own(rng, tier):
     n = 300 if tier == "quick" else 15000
     return [flow_case(rng) for _ in range(n)] + [hs_case(rng) for _ in range(n)]
+
+
+def gen(rng, tier):
+    """the property's own streams, with every 8th case taken from the shared mixed-world stream (gen/worldmix.py)"""
+    cases = gen_own(rng, tier)
+    return [c if i % 8 != 7 else MIX.gen_mix(rng) for i, c in enumerate(cases)]
